@@ -174,7 +174,10 @@ def check_c14(case):
 
 
 # --------------------------------------------------------------------------- C15 completeness
-BROKEN = {"yaql": "<% 1 +/ 2 %>", "jinja": "{{ 1 +/ 2 }}"}
+BROKEN = {"yaql": "<% 1 +/ 2 %>", "jinja": "{{ 1 +/ 2 }}",
+          # valid Jinja bodies that are not YAQL grammar (a definition ported by swapping delimiters only)
+          "yaql_pipe": "<% ctx().xs | length %>", "yaql_ternary": "<% 1 if true else 2 %>"}
+JINJA_TWINS = {"<% ctx().xs | length %>": "{{ ctx().xs | length }}", "<% 1 if true else 2 %>": "{{ 1 if true else 2 }}"}
 UNASSIGNED = ["<% ctx(zq) %>", "<% ctx().zq %>", "<% ctx('zq') %>", '<% ctx("zq") %>',
               "{{ ctx('zq') }}", "{{ ctx().zq }}", '{{ ctx("zq") }}']
 RESERVED = ("noop", "fail", "continue", "retry")
@@ -292,6 +295,13 @@ def check_c15_one(case):
     """One single-fault mutant: inspect() must report the fault at its site."""
     m, cls, site, path = case["wf"], case["fault"], case["site"], case["path"]
     out = []
+    form = site.split(" <- ")[-1] if " <- " in site else None
+    if form in JINJA_TWINS:
+        # the same body, valid as Jinja, has been validated earlier in this process
+        try:
+            expr_base.validate(JINJA_TWINS[form])
+        except Exception:
+            pass
     sub = {"wf": m, "name": case["name"], "fault": cls, "site": site, "path": path}
     try:
         rep = native_specs.WorkflowSpec(copy.deepcopy(m)).inspect()
@@ -408,6 +418,25 @@ def pipeline_wf(form):
     }
 
 
+def python_equal_other_type(v):
+    """A JSON value that compares equal to v in Python but is a different JSON value (or None if there is none)."""
+    if v is True:
+        return 1
+    if v is False:
+        return 0
+    if isinstance(v, int) and v in (0, 1):
+        return bool(v)
+    if isinstance(v, int) and abs(v) < 2 ** 53:
+        return float(v)
+    if isinstance(v, float) and v == int(v) and abs(v) < 2 ** 53 and v != 0:
+        return int(v)
+    if isinstance(v, list) and v:
+        inner = [python_equal_other_type(x) for x in v]
+        if all(x is not None for x in inner):
+            return inner
+    return None
+
+
 def check_c16(case):
     """One value through every stage of the data path, for one reference form."""
     V = case["value"]
@@ -423,6 +452,11 @@ def check_c16(case):
     wf = pipeline_wf(form)
     wf["input"] = ["x", {"lst": None}, {"xd": "declared-default"}, {"xn": 60}]
     wf["output"] = wf["output"] + [{"zd": REF_FORMS[form].format(v="xd")}, {"zn": REF_FORMS[form].format(v="xn")}]
+    # a variable that already holds a value which is ==-equal in Python but of another JSON type is republished
+    old = python_equal_other_type(V)
+    wf["vars"] = wf["vars"] + [{"eqv": old}]
+    res_expr = "<% result() %>" if form.startswith("yaql") else "{{ result() }}"
+    wf["tasks"]["t1"]["next"][0]["publish"].append({"eqv": res_expr})
     spec = native_specs.WorkflowSpec(copy.deepcopy(wf))
     insp = spec.inspect()
     if insp:
@@ -464,6 +498,8 @@ def check_c16(case):
             return {"violations": out}
         if not strict_eq(nt[0]["ctx"].get("y"), V):
             v("value_changed", "result->publish->ctx", nt[0]["ctx"].get("y"))
+        if not isinstance(V, dict) and not strict_eq(nt[0]["ctx"].get("eqv"), V):
+            v("value_changed", "republish over an equal value of another type", nt[0]["ctx"].get("eqv"))
         if not strict_eq(nt[0]["actions"][0]["input"]["m"], V):
             v("value_changed", "published->action_input", nt[0]["actions"][0]["input"]["m"])
         c.update_task_state("t2", 0, events.ActionExecutionEvent(st.RUNNING))
